@@ -116,6 +116,15 @@ def cases(thorough):
         return "explicit_column_list_always_wins", sorted([("s.a.id", "s.o.e1"), ("s.a.a2", "s.o.e2")])
 
     out.append(("explicit", "insert into s.o (e1, e2) select id as p, a2 as q from s.a", ["s.o", "s.a"], explicit))
+    def positional_union(known):
+        if "s.o" in known:
+            z, a = known["s.o"][0], known["s.o"][1]
+            return "insert_positions_named_by_known_target_columns", sorted([("s.a.id", "s.o." + z), ("s.a.a2", "s.o." + a), ("s.b.bid", "s.o." + z), ("s.b.b1", "s.o." + a)])
+        return "unknown_tables_answer_as_without_metadata", None
+
+    out.append(("positional_union", "insert into s.o select id as p, a2 as q from s.a union all select bid, b1 from s.b", ["s.o", "s.a"], positional_union))
+    out.append(("explicit_union", "insert into s.o (e1, e2) select id as p, a2 as q from s.a union all select bid, b1 from s.b", ["s.o", "s.a"],
+                lambda known: ("explicit_column_list_always_wins", sorted([("s.a.id", "s.o.e1"), ("s.a.a2", "s.o.e2"), ("s.b.bid", "s.o.e1"), ("s.b.b1", "s.o.e2")]))))
     out.append(("positional_overwrite", "insert overwrite table s.o select id as p, a2 as q from s.a", ["s.o", "s.a"], positional))
     # CREATE TABLE AS defines its own columns: metadata about the target never renames them
     out.append(("ctas_keeps_its_names", "create table s.o as select id as p, a2 as q from s.a", ["s.o", "s.a"], lambda known: ("ctas_target_columns_are_the_select_names", sorted([("s.a.id", "s.o.p"), ("s.a.a2", "s.o.q")]))))
@@ -155,7 +164,7 @@ def main():
                     # an always-known bystander keeps the provider truthy when nothing in scope is known
                     meta = dict(known, **{"zz.other": ["q"]})
                     for dialect in DIALECTS_FOR.get(name, ("ansi", "non-validating")):
-                        if dialect == "non-validating" and name in ("positional", "explicit"):
+                        if dialect == "non-validating" and name in ("positional", "explicit", "positional_union", "explicit_union"):
                             continue  # target-column naming from metadata is implemented by the sqlfluff extractors only
                         base = run(sql, None, None, dialect)
                         for pk in providers:
